@@ -214,8 +214,8 @@ def provenance(F, res):
 # ---------------------------------------------------------------- (g)
 def parse_mapping(F, res):
     p = 'module::functions::local_function::LocalFunction::parse'
-    nop = Policy(effects=lambda q: (not q.startswith('std::') and not q.startswith('log::') and not q.startswith('anyhow::')) or 'BTreeMap::insert' in q,
-                 inline=lambda q: False)
+    from heval import local_policy
+    nop = local_policy(F, p, public_events=True, events=[r'BTreeMap::insert$', r'append_instruction$'])
     args = [sym(n) for n in ('module', 'indices', 'id', 'ty', 'args', 'body', 'on_instr_pos', 'validator')]
     ws = Evaluator(F, nop, max_worlds=20000).run_fn(p, args)
     n_ok = 0
